@@ -2216,6 +2216,10 @@ class Exec:
                 return [(st, VBool(z3.Or(*its) if its else z3.BoolVal(False)))]
             if name == 'object.__new__' and len(A) == 1 and isinstance(A[0], VClass):
                 return [(st, VObj(A[0].qual, 'obj!%d' % next(_fresh)))]
+            if name in ('weakref.WeakKeyDictionary', 'weakref.WeakValueDictionary') and not A and not kws:
+                # a dictionary keyed by (or holding) object identities; the referents are assumed alive (they are reachable from the
+                # scenario's roots), so it behaves as a plain dict
+                return [(st, VDict([]))]
             if name == 'weakref.ref':
                 if isinstance(A[0], (VObj, VFunc, VClass, VExt)) and not (isinstance(A[0], VExt) and A[0].name == 'weakref.ref'):
                     return [(st, VExt('weakref.ref', (A[0],)))]
